@@ -4,6 +4,19 @@ open Juniper.Model.Helpers Juniper.Spec.Helpers Juniper.Gen.Helpers
 
 variable {α : Type}
 
+seal Juniper.Facts.wrap64
+
+open Juniper.Facts in
+/-- inside the documented domain (`idx + n ≤ len(s) ≤ MaxInt64`) `len(s) - n` and `idx + n` are exact -/
+theorem ru_keepStart_nat (len n : Nat) (h : n ≤ len) (hl : len ≤ 9223372036854775807) :
+    ruKeepStart (len : Int) (n : Int) = (len : Int) - (n : Int) := by
+  unfold ruKeepStart; exact wrap64_of_range (by omega) (by omega)
+
+open Juniper.Facts in
+theorem ru_removeEnd_nat (idx n len : Nat) (h : idx + n ≤ len) (hl : len ≤ 9223372036854775807) :
+    ruRemoveEnd (idx : Int) (n : Int) = (idx : Int) + (n : Int) := by
+  unfold ruRemoveEnd; exact wrap64_of_range (by omega) (by omega)
+
 theorem ru_copyAt_nat (dst src : List α) (dlo dhi : Nat) :
     copyAt dst (dlo : Int) (dhi : Int) src =
       dst.take dlo ++ src.take (min (dhi - dlo) src.length) ++ dst.drop (dlo + min (dhi - dlo) src.length) := by
@@ -19,6 +32,7 @@ theorem ru_clearAt_nat (zero : α) (s : List α) (lo hi : Nat) :
 
 /-- `removeUnordered` with all generated definitions evaluated; `k` is the final `keepStart`. -/
 theorem removeUnordered_eval (zero : α) (s : List α) (idx n k : Nat) (h : idx + n ≤ s.length)
+    (hl : s.length ≤ 9223372036854775807)
     (hk : k = if idx + n > s.length - n then idx + n else s.length - n) :
     removeUnordered zero s (idx : Int) (n : Int) =
       some (((s.take idx ++ (s.drop k) ++ s.drop (idx + (s.length - k))).take (s.length - n)),
@@ -27,19 +41,19 @@ theorem removeUnordered_eval (zero : α) (s : List α) (idx n k : Nat) (h : idx 
   have hK : (if ruBump (ruRemoveEnd (idx : Int) (n : Int)) (ruKeepStart (s.length : Int) (n : Int)) = true
       then ruBumpVal (ruRemoveEnd (idx : Int) (n : Int)) else ruKeepStart (s.length : Int) (n : Int))
       = (k : Int) := by
+    rw [ru_removeEnd_nat idx n s.length h hl, ru_keepStart_nat s.length n (by omega) hl]
     by_cases c : idx + n > s.length - n
-    · have hb : ruBump (ruRemoveEnd (idx : Int) (n : Int)) (ruKeepStart (s.length : Int) (n : Int)) = true := by
-        unfold ruBump ruRemoveEnd ruKeepStart
+    · have hb : ruBump ((idx : Int) + (n : Int)) ((s.length : Int) - (n : Int)) = true := by
+        unfold ruBump
         exact decide_eq_true (by omega)
       rw [if_pos hb, hk, if_pos c]
-      unfold ruBumpVal ruRemoveEnd
+      unfold ruBumpVal
       omega
-    · have hb : ¬ ruBump (ruRemoveEnd (idx : Int) (n : Int)) (ruKeepStart (s.length : Int) (n : Int)) = true := by
-        unfold ruBump ruRemoveEnd ruKeepStart
+    · have hb : ¬ ruBump ((idx : Int) + (n : Int)) ((s.length : Int) - (n : Int)) = true := by
+        unfold ruBump
         rw [decide_eq_true_eq]
         omega
       rw [if_neg hb, hk, if_neg c]
-      unfold ruKeepStart
       omega
   unfold removeUnordered
   simp only [hK]
@@ -47,8 +61,9 @@ theorem removeUnordered_eval (zero : α) (s : List α) (idx n k : Nat) (h : idx 
     ruCopySrcHi, ruClearLo, ruClearHi, ruRetLo, ruRetHi, ruCopies, ruClears, if_true]
   have hkl : k ≤ s.length := by rw [hk]; split <;> omega
   have hki : idx ≤ k := by rw [hk]; split <;> omega
-  have hLn : (s.length : Int) - (n : Int) = ((s.length - n : Nat) : Int) := by omega
-  rw [hLn]
+  have hLn : Juniper.Facts.wrap64 ((s.length : Int) - (n : Int)) = ((s.length - n : Nat) : Int) := by
+    rw [wrap64_of_range (by omega) (by omega)]; omega
+  simp only [hLn]
   have o1 : sliceOk (idx : Int) (s.length : Int) (s.length : Int) = true := by
     rw [sliceOk_iff]; omega
   have o2 : sliceOk (k : Int) (s.length : Int) (s.length : Int) = true := by
@@ -70,13 +85,14 @@ theorem removeUnordered_eval (zero : α) (s : List α) (idx n k : Nat) (h : idx 
   rw [e3, e4, List.append_nil, List.drop_zero, Nat.sub_zero,
     List.take_left' (by rw [List.length_take]; omega)]
 
-theorem removeUnordered_spec (zero : α) (s : List α) (idx n : Nat) (h : idx + n ≤ s.length) :
+theorem removeUnordered_spec (zero : α) (s : List α) (idx n : Nat) (h : idx + n ≤ s.length)
+    (hl : s.length ≤ 9223372036854775807) :
     ∃ ret arr, removeUnordered zero s (idx : Int) (n : Int) = some (ret, arr) ∧
       ret.length = s.length - n ∧ ret.take idx = s.take idx ∧
       ret.Perm (s.take idx ++ s.drop (idx + n)) ∧
       (∀ p, idx + n ≤ p → p < s.length - n → ret[p]? = s[p]?) ∧
       arr = ret ++ List.replicate n zero := by
-  refine ⟨_, _, removeUnordered_eval zero s idx n _ h rfl, ?_⟩
+  refine ⟨_, _, removeUnordered_eval zero s idx n _ h hl rfl, ?_⟩
   by_cases c : idx + n > s.length - n
   · -- nothing (or not everything) can be taken from the tail: the tail is shifted down
     rw [if_pos c]
